@@ -24,7 +24,40 @@ def make_plan(ths, tier, rnd):
     return plan
 
 
+def design_reproduction():
+    """EqlogEval with member relations (own/all copies recomputed per age) on a one-rule model theory:
+    TLC finds the duplicate of KF-C04-1 / the missing consequence of KF-C17-1 as counterexamples of
+    the design itself.  Returns a short record for the evidence; it never affects the verdict."""
+    import os
+    import shutil
+    import eql
+    import mcgen
+    import vlib
+    d = vlib.workdir("c17-design")
+    os.makedirs(os.path.join(d, "in"))
+    shutil.copyfile(os.path.join(vlib.VERIF, "theories_design", "inhs.eql"), os.path.join(d, "in", "inhs.eql"))
+    r0 = vlib.run([os.path.join(vlib.BIN, "eqlogc"), os.path.join(d, "in"), os.path.join(d, "out")])
+    if r0.returncode != 0:
+        return {"error": "theory inhs rejected"}
+    sig, st = eql.load(os.path.join(d, "in", "inhs.eql"))
+    try:
+        r = mcgen.eval_model_check("inhs", sig, st, os.path.join(d, "out", "inhs.eql.rs"), "c17-design-eval", allow_violation=True,
+                                   workers=8, maxels=2, maxid=2, maxasserts=4, invariants="NoDupAtObs RefinesApi", timeout=2400)
+    except vlib.ToolError as e:
+        return {"error": str(e)[:200]}
+    return {"states": r["distinct"], "violated": r["violated"],
+            "meaning": "the faithful design (ALL copies recomputed per age from OWN copies) violates these invariants: "
+                       "the recorded findings KF-C04-1 / KF-C17-1 are properties of the algorithm, not of one code path"}
+
+
 def run(tier, replay):
+    if tier == "thorough" and replay is None:
+        import json
+        import os
+        import vlib
+        os.makedirs(vlib.WORK, exist_ok=True)
+        with open(os.path.join(vlib.WORK, "c17_design.json"), "w") as f:
+            json.dump(design_reproduction(), f)
     return modelcheck.run(PROP, tier, replay, make_plan, panic_props=("C17",), also_props=("C01", "C02"),
                           explanation="one model declaration with a member predicate, two object constants, global rules; "
                                       "families of one fact set (member facts + dom/cod facts of an acyclic functional "
